@@ -765,6 +765,23 @@ class LocalVarsVisitor(ast.NodeVisitor):
         self.vars.add(node.name)
         self.generic_visit(node)
 
+    # The names bound by the patterns of a match statement: 'case {"kind": kind, **rest}', 'case [first, *others]'
+
+    def visit_MatchAs(self, node: Any) -> Any:
+        if node.name:
+            self.vars.add(node.name)
+        self.generic_visit(node)
+
+    def visit_MatchStar(self, node: Any) -> Any:
+        if node.name:
+            self.vars.add(node.name)
+        self.generic_visit(node)
+
+    def visit_MatchMapping(self, node: Any) -> Any:
+        if node.rest:
+            self.vars.add(node.rest)
+        self.generic_visit(node)
+
 
 def _function_name(node: ast.AST) -> List[str]:
     if isinstance(node, ast.Name):
